@@ -73,12 +73,12 @@ Proof.
   intros H. apply find_some in H. destruct H as [H _]. apply in_map_iff in H. destruct H as [n [<- _]]. lia.
 Qed.
 
-(* the key usage() yields.  Premise: component i of the receiver (0 = itself, i = its i-th subkey) reports the flag set g i,
+(* the key usage() yields, for any selfsig rule (upick) and binding rule (pick) of the model.  Premise: component i of the receiver (0 = itself, i = its i-th subkey) reports the flag set g i,
    i.e. no _get_key_flags call crashes *)
-Theorem refine_usage pick k o user g m :
-  comp_flags_with pick k user = map (fun i => FOk (g (Z.of_nat i))) (seq 0 (S m)) ->
+Theorem refine_usage upick pick k o user g m :
+  comp_flags_with upick pick k user = map (fun i => FOk (g (Z.of_nat i))) (seq 0 (S m)) ->
   gen_usage (op_flags o) g (k_enforce k) 0 (map Z.of_nat (seq 1 m)) =
-  match usage_with pick k o user with
+  match usage_with upick pick k o user with
   | Chosen i _ => GOk (Z.of_nat i) | Refused => GRaise "PGPError" | Crashed _ => GRaise "" end.
 Proof.
   intros H. unfold gen_usage, usage_with. destruct (op_flags o =? 0); cbn [negb]; [reflexivity|].
@@ -90,12 +90,12 @@ Proof.
 Qed.
 
 (* the wrapper: the two guards, then usage, then check_attributes, then the method on the chosen component *)
-Theorem refine_key_action pick k o user g m :
-  comp_flags_with pick k user = map (fun i => FOk (g (Z.of_nat i))) (seq 0 (S m)) ->
+Theorem refine_key_action upick pick k o user g m :
+  comp_flags_with upick pick k user = map (fun i => FOk (g (Z.of_nat i))) (seq 0 (S m)) ->
   gen_key_action (op_flags o) g (k_enforce k) 0 (map Z.of_nat (seq 1 m))
                  (fun a => attr_val k (attr_of_code a)) (snd (action_row o))
                  (negb (k_present k)) (Z.of_nat (length (k_uids k))) (k_primary k) (negb (is_certify o)) =
-  match perform_with pick k o user with
+  match perform_with upick pick k o user with
   | Run i _ => GOk (Z.of_nat i)
   | NoKey | Incomplete | NoUsage | BadAttr _ => GRaise "PGPError"
   | Crash _ => GRaise "" end.
@@ -104,8 +104,8 @@ Proof.
   destruct (k_present k); cbn [negb]; [|reflexivity].
   replace (Z.of_nat (length (k_uids k)) =? 0) with (length (k_uids k) =? 0)%nat by lia.
   destruct ((length (k_uids k) =? 0)%nat && k_primary k && negb (is_certify o)); [reflexivity|].
-  rewrite (refine_usage pick k o user g m H), refine_check_attributes.
-  destruct (usage_with pick k o user); try reflexivity.
+  rewrite (refine_usage upick pick k o user g m H), refine_check_attributes.
+  destruct (usage_with upick pick k o user); try reflexivity.
   destruct (check_attributes k o); reflexivity.
 Qed.
 
@@ -115,7 +115,7 @@ Proof. rewrite refine_action_row. reflexivity. Qed.
 
 (* the premise of refine_usage / refine_key_action is inhabited: a primary key without user ids and subkeys reports {Certify} *)
 Example refine_usage_premise :
-  comp_flags_with newest {| k_present := true; k_primary := true; k_uids := []; k_bind := []; k_subs := [];
+  comp_flags_with newest_cert newest {| k_present := true; k_primary := true; k_uids := []; k_bind := []; k_subs := [];
                             k_public := false; k_protected := false; k_unl := true; k_enforce := true |} None
   = map (fun i => FOk ((fun _ => CERTIFY) (Z.of_nat i))) (seq 0 1).
 Proof. reflexivity. Qed.
